@@ -1038,6 +1038,10 @@ class Exec:
             self.bi.rebind_aliases(self, p, env[nm], nv)
         if c.result_expr is not None:
             res = post.value(c.result_expr)
+        for k in range(len(p.events) - 1, -1, -1):
+            if p.events[k][0] == c.qualname and len(p.events[k]) == 2:
+                p.events[k] = (c.qualname, p.events[k][1], res)       # remember the result for call-event clauses
+                break
         yield p, res
 
     _site_cache = {}
